@@ -138,19 +138,28 @@ Print Assumptions C01_up_silent.
 
 (* ------------------------------------------------------------ bind.Send errors *)
 
-(* A send error toward peer q: the state evolves as without the error, every
+(* A send error toward peer q: the state evolves as without the error (the rest
+   is never transmitted: sessions, counters and staged packets are the same as
+   if all had been) except that a refused initiation is not outstanding, every
    other peer's datagrams are unchanged, and of peer q's datagrams exactly the
-   first k are transmitted (the rest is never transmitted: the state is the
-   same as if all had been). *)
+   first k are transmitted. *)
 Theorem C01_fault_transmits_prefix : forall st pkts q k,
   let '(st1, o1) := step st (TunBatch pkts) in
   let '(st2, o2) := step st (TunBatchFault pkts q k) in
-  st2 = st1 /\
+  (s_tbl st2 = s_tbl st1 /\ s_mtu st2 = s_mtu st1 /\ s_up st2 = s_up st1 /\
+   map forget_init (s_peers st2) = map forget_init (s_peers st1)) /\
   (forall i, filter (fun x => out_peer x =? i) o2 =
              if i =? q then firstn (N.to_nat k) (filter (fun x => out_peer x =? i) o1)
              else filter (fun x => out_peer x =? i) o1).
 Proof. exact fault_transmits_prefix. Qed.
 Print Assumptions C01_fault_transmits_prefix.
+
+Theorem C01_fault_refused_initiation : forall tbl mtu i p pkts,
+  (exists ep, snd (tun_step tbl mtu i p pkts) = [OInit i ep]) ->
+  p_init_out (fst (peer_step tbl mtu true i p (TunBatchFault pkts i 0))) = false /\
+  snd (peer_step tbl mtu true i p (TunBatchFault pkts i 0)) = [].
+Proof. exact fault_refused_initiation. Qed.
+Print Assumptions C01_fault_refused_initiation.
 
 (* ------------------------------------------------------------------ non-vacuity *)
 
@@ -211,3 +220,13 @@ Example C01_nonvacuous_fault :
   outs step (ex_st None) [RefHs 1 7 3; TunBatchFault [ex_pkt; ex_pkt] 1 1; TunBatch [ex_pkt]]
   = [[OResp 1 3 7]; [OData 1 3 7 0 ex_pkt 1420]; [OData 1 3 7 2 ex_pkt 1420]].
 Proof. vm_compute. reflexivity. Qed.
+
+(* The refused Send is the initiation itself: nothing on the wire, an answer
+   finds no outstanding initiation and is ignored; the packet stays staged and
+   leaves with the next one once a transmitted initiation is answered. *)
+Example C01_nonvacuous_refused_initiation :
+  snd (tun_step ex_tbl 1420 1 (ex_peer (Some 3)) [ex_pkt]) = [OInit 1 3] /\
+  outs step (ex_st (Some 3)) [TunBatchFault [ex_pkt] 1 0; AnswerHs 1 9 4; ShiftHs 1;
+                              TunBatch [ex_pkt]; AnswerHs 1 9 4]
+  = [[]; []; []; [OInit 1 3]; [OData 1 4 9 0 ex_pkt 1420; OData 1 4 9 1 ex_pkt 1420]].
+Proof. split; vm_compute; reflexivity. Qed.
